@@ -278,6 +278,7 @@ def gr_specs(draw, tier):
     b["strain"] = draw(st.sampled_from(["iso", "iso", "axis0", "axis2"]))
     # frequency unit of the three Phonopy objects (factor argument): THz (default), the same x 2, cm^-1
     b["unit"] = draw(st.sampled_from([None, None, 2.0, 33.35641]))
+    b["gnac"] = draw(st.sampled_from([False, False, False, True]))
     return b
 
 
@@ -321,6 +322,32 @@ def run_gruneisen(spec):
         ph.force_constants = fc0 * scale ** (-2 * g) if strain == "iso" else springs_fc(ph.supercell)
         phs.append(ph)
     delta = (a + b) if spec["explicit_delta"] else None
+    if spec.get("gnac"):
+        # polar crystal: the frequencies reported along a band path of several segments are those of the reference object, at the zone
+        # centre in the limit along the segment the point belongs to
+        try:
+            Zg, epsg = sym_nac(phs[0].primitive, rng_from(spec["key"], 5))
+        except ValueError:
+            return Out(nontrivial=False, classes=["skipped"])
+        for ph_ in phs:
+            ph_.nac_params = {"born": Zg.copy(), "dielectric": epsg.copy(), "factor": 14.4}
+        grn = PhonopyGruneisen(phs[0], phs[1], phs[2], delta_strain=delta)
+        segs = [np.array([[0.5, 0.0, 0.0], [0.25, 0.0, 0.0], [0.0, 0.0, 0.0]]), np.array([[0.0, 0.0, 0.0], [0.0, 0.15, 0.2], [0.0, 0.3, 0.4]]),
+                np.array([[0.3, 0.3, 0.0], [0.15, 0.15, 0.0], [0.0, 0.0, 0.0]])]
+        grn.set_band_structure(segs)
+        bsn = grn.get_band_structure()
+        for k, seg in enumerate(segs):
+            fseg = np.array(bsn[2][k])
+            for j, qq in enumerate(seg):
+                if np.abs(qq).max() < 1e-12:
+                    phs[0].run_qpoints([qq], nac_q_direction=seg[0] - seg[-1])
+                else:
+                    phs[0].run_qpoints([qq])
+                fr_ = phs[0].get_qpoints_dict()["frequencies"][0]
+                if np.abs(np.sort(fseg[j]) - np.sort(fr_)).max() > 1e-6 * max(float(np.abs(fr_).max()), 1e-300):
+                    return Out(ok=False, msg="Grueneisen band structure with NAC, segment %d point %s: frequencies %s differ from the reference object's %s "
+                               "(zone centre taken in the limit along the segment)" % (k, qq.tolist(), np.sort(fseg[j]).tolist(), np.sort(fr_).tolist()))
+        return Out(ok=True, nontrivial=True, classes=["gruneisen_band_with_nac", "unit_x%g" % fr])
     gr = PhonopyGruneisen(phs[0], phs[1], phs[2], delta_strain=delta)
     closed = -((1 + a) ** (-2 * g) - (1 - b) ** (-2 * g)) / (2 * (a + b))
     res = {}
